@@ -54,6 +54,8 @@ BodyKinds == {"comment",   \* no code at all
               "kbint",     \* raises KeyboardInterrupt
               "await",     \* top-level await expression with a value
               "swapout",   \* replaces sys.stdout and does not restore it
+              "closeout",  \* closes sys.stdout (the capture stream): reading the captured text back raises inside the
+                           \* run loop itself, outside the doctest's code
               "filters",   \* changes the warning filters
               "defh",      \* defines a helper function (several lines), silent
               "callh"}     \* calls the helper of an earlier part, which raises inside the helper
@@ -69,6 +71,7 @@ ValueKind(b) == CASE b \in {"eval", "evalp", "await"} -> "val"
                   [] OTHER -> "novalue"
 RaisesExc(b) == b \in {"raise", "praise", "callh"}
 BaseExc(b)   == b \in {"sysexit", "kbint"}
+Internal(b)  == b = "closeout"     \* the run loop's own bookkeeping raises; the traceback holds no doctest frame
 
 (* Output / value tokens.  Every token is <<class, part, index>>. *)
 Out(k, b)  == [j \in 1..NOut(b) |-> <<"o", k, j>>]
@@ -190,7 +193,7 @@ WantText(p, k, opts) ==
 WantFits(p, k, opts) ==
   LET w == p[k].want
       b == p[k].body
-      completes == ~RaisesExc(b) /\ ~BaseExc(b) /\ b \notin {"exit", "cerr", "comment"}
+      completes == ~RaisesExc(b) /\ ~BaseExc(b) /\ ~Internal(b) /\ b \notin {"exit", "cerr", "comment"}
   IN CASE w = "none" -> TRUE
        [] w = "all"  -> completes /\ Since(p, k, opts) # <<>>
        [] w = "own"  -> completes /\ IsExpr(b) /\ NOut(b) > 0
@@ -224,6 +227,7 @@ RefPartOutcome(p, k, opts) ==
   IN CASE b = "cerr" -> "compile"
        [] b = "exit" -> "exit"
        [] BaseExc(b) -> "base"
+       [] Internal(b) -> "internal"
        [] RaisesExc(b) -> IF w = "none" THEN "exc"
                           ELSE IF w \notin TbWants THEN "exc"          \* a non-traceback want never hides it
                           ELSE IF ExcAccepted(w, st) THEN "ok" ELSE "gotwant"
@@ -260,6 +264,7 @@ RefVerdict(p, n, opts, importOk) ==
       kind == RefStopKind(p, stop, opts, importOk)
       ran  == \E k \in 1..n : RefRuns(p, k, opts)
   IN IF kind = "base" THEN "escaped"
+     ELSE IF kind = "internal" THEN "internal"
      ELSE IF kind \in {"gotwant", "exc", "compile", "reprfail", "directive", "import"} THEN "failed"
      ELSE IF ran THEN "passed" ELSE "skipped"      \* nothing ran: skipped, never passed
 
@@ -413,10 +418,13 @@ ExecPart ==
          logOut == logged @@ (px :> out)                 \* finally: logged_stdout[partx] = cap.text
      IN
      /\ executed' = Append(executed, px)
-     /\ capture' = IF b = "swapout" /\ "NoStdoutRestore" \in Deviation THEN "leaked" ELSE "orig"   \* with cap: ... __exit__
+     /\ capture' = IF b \in {"swapout", "closeout"} /\ "NoStdoutRestore" \in Deviation THEN "leaked" ELSE "orig"   \* with cap: ... __exit__
      /\ logged' = logOut
      /\ IF BaseExc(b) THEN                                \* not an Exception: propagates whatever on_error says
            /\ pc' = "raised" /\ result' = "raised:base"
+           /\ UNCHANGED <<unmatched, excInfo, failedPart>>
+        ELSE IF Internal(b) THEN                          \* "Could not clean traceback": raised whatever on_error says (observation O6)
+           /\ pc' = "raised" /\ result' = "raised:internal"
            /\ UNCHANGED <<unmatched, excInfo, failedPart>>
         ELSE IF b = "exit" THEN                           \* ExitTestException: graceful break
            /\ pc' = "finish" /\ UNCHANGED <<unmatched, excInfo, failedPart, result>>
@@ -521,6 +529,7 @@ SkippedIsRef == (pc = "choose" /\ excInfo = "none") =>
 \* terminal agreement with the reference (C01, C02, C03, C04, C09)
 ExpectedResult(verdict) ==
   IF verdict = "escaped" THEN "raised:base"
+  ELSE IF verdict = "internal" THEN "raised:internal"
   ELSE IF verdict = "failed" /\ cfgv.onError = "raise"
        THEN "raised:" \o RefStopKind(prog, RefStop(prog, nlive, cfgv.opts, cfgv.importOk), cfgv.opts, cfgv.importOk)
   ELSE IF verdict = "skipped" /\ cfgv.mode = "pytest" THEN "raised:Skipped"
@@ -534,7 +543,10 @@ OutcomeIsRef == Terminal =>
   /\ (result \in {"passed", "skipped"} => failedPart = 0)
 
 \* C09: a run asked to return errors never raises for an ordinary failure
-ReturnNeverRaises == (pc = "raised" /\ cfgv.onError = "return") => result \in {"raised:base", "raised:Skipped"}
+\* ("raised:internal": a doctest that closes the capture stream makes the loop's own bookkeeping raise; the loop then gives up
+\* with "Could not clean traceback" whatever on_error says.  Sabotage of the capture stream is not one of C09's failure kinds
+\* (DESIGN.md section 6.3, observation O6); the body kind is only part of the C12 alphabet, where stdout must still come back)
+ReturnNeverRaises == (pc = "raised" /\ cfgv.onError = "return") => result \in {"raised:base", "raised:Skipped", "raised:internal"}
 
 \* C02: nothing ran => skipped, never passed
 NothingRanNotPassed == (pc = "done" /\ result = "passed") => executed # <<>>
